@@ -3,6 +3,7 @@
 from __future__ import annotations
 
 import ast
+import re
 import textwrap
 from collections import Counter
 
@@ -118,28 +119,79 @@ def _hex_value_ok(e9, fi: FunctionInfo, call: ast.Call) -> str | None:
     return f"the {src_[0]} (>= {lo}) characters passed the hex-digit validation at line {g_.lineno}"
 
 
-def _rejudge(e9, corpus: Corpus, fq: str, text: str) -> str | None:
-    fi = corpus.func(fq.replace("myst_parser.", "", 1))
+_ASCII_DIGITS = frozenset("0123456789")
+
+
+def _digit_value(e9, fi: FunctionInfo, e: ast.expr, at: ast.AST, depth: int = 0) -> str | None:
+    """why the one-character string ``e`` is an ASCII digit when ``at`` is evaluated (followed through helper parameters)"""
+    if depth > 3:
+        return None
     cfg = get_cfg(fi)
-    for call in (c for c in fi.local_nodes() if isinstance(c, ast.Call) and short(c) == text):
-        name = dotted(call.func)
-        if name == "int":
-            return _hex_value_ok(e9, fi, call)
-        if name == "chr" and len(call.args) == 1 and isinstance(call.args[0], ast.Name):
-            st = cfg.stmt_of(call)
-            code = call.args[0].id
-            ds = e9.reaching(fi, code, st)
-            if not (len(ds) == 1 and isinstance(ds[0], ast.Assign) and isinstance(ds[0].value, ast.Call) and dotted(ds[0].value.func) == "int"):
+    st = cfg.stmt_of(at)
+    tgt = e9.peek_target(e, fi, st)
+    if tgt is not None:
+        f = e9.facts_at(at, fi).get(tgt[0], TOP)
+        if f.subset_of(_ASCII_DIGITS) and f.chars:
+            return f"{unparse(e)} is the character at offset {tgt[0]}, known to be in {f!r}"
+    if isinstance(e, ast.Name):
+        assigns = [s for s in cfg.nodes if isinstance(s, ast.stmt) and e.id in _assigned(s)]
+        for d in cfg.dom().get(st, ()):
+            if isinstance(d, tuple) and d[0] in ("T", "F") and isinstance(d[1], (ast.If, ast.While)):
+                for t, pol in split_facts(d[1].test, d[0] == "T"):
+                    if pol and isinstance(t, ast.Compare) and len(t.ops) == 1 and isinstance(t.ops[0], (ast.In, ast.Eq)) and isinstance(t.left, ast.Name) and t.left.id == e.id:
+                        try:
+                            cs = as_charset(e9.m.eval_const(t.comparators[0]))
+                        except Unsupported:
+                            cs = None
+                        if cs and cs <= _ASCII_DIGITS and not e9.intervening(cfg, d[1], st, assigns):
+                            return f"{e.id} is tested against {''.join(sorted(cs))!r}"
+        if e.id in fi.params and not assigns:
+            sites = [(cfi, c) for cfi, c in e9.g.callers().get(fi.fq, []) if cfi.module is e9.m]
+            if not sites:
                 return None
-            why = _hex_value_ok(e9, fi, ds[0].value)
-            if why is None:
-                return None
-            for t, pol in cfg.guards(st):
-                if not pol and isinstance(t, ast.Compare) and len(t.ops) == 1 and isinstance(t.left, ast.Name) and t.left.id == code and isinstance(t.comparators[0], ast.Constant) and isinstance(t.comparators[0].value, int):
-                    c = t.comparators[0].value
-                    if (isinstance(t.ops[0], ast.Gt) and c <= 0x10FFFF) or (isinstance(t.ops[0], ast.GtE) and c <= 0x110000):
-                        return f"0 <= {code} <= 0x10FFFF: {why}; range test dominates"
+            idx = fi.params.index(e.id)
+            whys = []
+            for cfi, c in sites:
+                a = c.args[idx] if idx < len(c.args) and not any(isinstance(x, ast.Starred) for x in c.args) else next((k.value for k in c.keywords if k.arg == e.id), None)
+                w = _digit_value(e9, cfi, a, c, depth + 1) if a is not None else None
+                if w is None:
+                    return None
+                whys.append(f"{cfi.qualname}: {w}")
+            return f"parameter {e.id} - every call site passes a digit ({'; '.join(sorted(set(whys)))})"
+    return None
+
+
+def _rejudge(e9, corpus: Corpus, fq: str, text: str) -> str | None:
+    """the engine identifies a raising construct by its text: every call with that text must be discharged"""
+    fi = corpus.func(fq.replace("myst_parser.", "", 1))
+    calls = [c for c in fi.local_nodes() if isinstance(c, ast.Call) and short(c) == text]
+    whys = [_rejudge_call(e9, fi, c) for c in calls]
+    if not calls or any(w is None for w in whys):
+        return None
+    return "; ".join(sorted(set(whys)))
+
+
+def _rejudge_call(e9, fi: FunctionInfo, call: ast.Call) -> str | None:
+    cfg = get_cfg(fi)
+    name = dotted(call.func)
+    if name == "int" and len(call.args) == 1 and not call.keywords:
+        return _digit_value(e9, fi, call.args[0], call)
+    if name == "int":
+        return _hex_value_ok(e9, fi, call)
+    if name == "chr" and len(call.args) == 1 and isinstance(call.args[0], ast.Name):
+        st = cfg.stmt_of(call)
+        code = call.args[0].id
+        ds = e9.reaching(fi, code, st)
+        if not (len(ds) == 1 and isinstance(ds[0], ast.Assign) and isinstance(ds[0].value, ast.Call) and dotted(ds[0].value.func) == "int"):
             return None
+        why = _hex_value_ok(e9, fi, ds[0].value)
+        if why is None:
+            return None
+        for t, pol in cfg.guards(st):
+            if not pol and isinstance(t, ast.Compare) and len(t.ops) == 1 and isinstance(t.left, ast.Name) and t.left.id == code and isinstance(t.comparators[0], ast.Constant) and isinstance(t.comparators[0].value, int):
+                c = t.comparators[0].value
+                if (isinstance(t.ops[0], ast.Gt) and c <= 0x10FFFF) or (isinstance(t.ops[0], ast.GtE) and c <= 0x110000):
+                    return f"0 <= {code} <= 0x10FFFF: {why}; range test dominates"
     return None
 
 
@@ -786,7 +838,8 @@ class Side:
                 a = f.attr
                 if a in ("peek", "prefix", "forward"):
                     dflt = "0" if a == "peek" else "1"
-                    return f"{a}({self.norm(e.args[0]) if e.args else dflt})"
+                    oa = e.args[0] if e.args else next((k.value for k in e.keywords if k.arg in ("index", "length")), None)
+                    return f"{a}({self.norm(oa) if oa is not None else dflt})"
                 if a in ("get_position", "get_mark"):
                     return "mark()"
                 if a in CANON_Y:
@@ -906,8 +959,19 @@ class Side:
                 h = self.helper(n)
                 out += h.effects(h.fi.local_nodes())  # an extracted helper counts as if written in place
             elif isinstance(f, ast.Attribute) and f.attr in ("append", "extend") and isinstance(f.value, ast.Name) and n.args:
-                out.append(f"emit:{f.attr}({self.norm(n.args[0])})")
+                a0 = n.args[0]
+                if (isinstance(a0, ast.Constant) and a0.value == "") or (isinstance(a0, (ast.List, ast.Tuple)) and not a0.elts):
+                    continue  # emitting nothing
+                out.append(f"emit:{f.attr}({self.norm(a0)})")
         return out
+
+    def settings(self, nodes) -> list[str]:
+        """flag stores `name = True/False/None` among ``nodes``: what a branch decides besides what it consumes/emits"""
+        return [
+            f"set:{n.value.value}"
+            for n in nodes
+            if isinstance(n, ast.Assign) and len(n.targets) == 1 and isinstance(n.targets[0], ast.Name) and isinstance(n.value, ast.Constant) and (n.value.value is None or isinstance(n.value.value, bool))
+        ]
 
     def validation(self):
         """'the next N characters are all in S, else leave' in either spelling - a range(N) loop over peek(k), or
@@ -923,7 +987,7 @@ class Side:
                     if not (isinstance(st, ast.If) and not st.orelse and isinstance(st.body[-1], (ast.Raise, ast.Return)) and isinstance(st.test, ast.Compare) and len(st.test.ops) == 1 and isinstance(st.test.ops[0], ast.NotIn)):
                         continue
                     left = st.test.left
-                    if isinstance(left, ast.Call) and isinstance(left.func, ast.Attribute) and self.is_recv(left.func.value) and left.func.attr == "peek" and len(left.args) == 1 and isinstance(left.args[0], ast.Name) and left.args[0].id == k:
+                    if isinstance(left, ast.Call) and isinstance(left.func, ast.Attribute) and self.is_recv(left.func.value) and left.func.attr == "peek" and isinstance(_offarg(left), ast.Name) and _offarg(left).id == k:
                         try:
                             cs = as_charset(self.const(st.test.comparators[0]))
                         except NotConst:
@@ -932,7 +996,7 @@ class Side:
                             guards.append((f"all:prefix({self.norm(n.iter.args[0])})", "in", "".join(sorted(cs))))
                             consumed.add(st.test)
                             for c in ast.walk(n):
-                                if isinstance(c, ast.Call) and isinstance(c.func, ast.Attribute) and c.func.attr == "peek" and c.args and isinstance(c.args[0], ast.Name) and c.args[0].id == k:
+                                if isinstance(c, ast.Call) and isinstance(c.func, ast.Attribute) and c.func.attr == "peek" and isinstance(_offarg(c), ast.Name) and _offarg(c).id == k:
                                     reads.add(id(c))
             elif isinstance(n, ast.Call) and isinstance(n.func, ast.Name) and n.func.id in ("any", "all") and len(n.args) == 1 and isinstance(n.args[0], ast.GeneratorExp):
                 ge = n.args[0]
@@ -973,6 +1037,19 @@ class Side:
         side.depth = self.depth + 1
         return side
 
+    def prefix_eq(self, c: ast.Compare):
+        """per-offset guards of `prefix(k) ==/!= "<k characters>"`, None for any other comparison"""
+        if not (len(c.ops) == 1 and isinstance(c.ops[0], (ast.Eq, ast.NotEq))):
+            return None
+        lhs = self.norm(c.left)
+        try:
+            v = self.const(c.comparators[0])
+        except NotConst:
+            return None
+        if not (isinstance(v, str) and len(v) >= 2 and lhs == f"prefix({len(v)})"):
+            return None
+        return [(f"peek({i})", "in", ch) for i, ch in enumerate(v)]
+
     def merged(self, t):
         """`x == a or x == b` / `x != a and x != b` read as one membership guard: (guard, compare nodes) | None"""
         if not (isinstance(t, ast.BoolOp) and len(t.values) > 1 and all(isinstance(v, ast.Compare) and len(v.ops) == 1 for v in t.values)):
@@ -1001,7 +1078,7 @@ class Side:
             if isinstance(n, ast.If) and isinstance(n.body[-1], (ast.Return, ast.Raise, ast.Continue)):
                 # early exit instead of nesting: what follows the statement is (part of) the else branch
                 orelse = orelse + _continuation(n)
-            if isinstance(n, ast.If) and (orelse or isinstance(n.body[-1], (ast.Return, ast.Raise, ast.Continue))):
+            if isinstance(n, ast.If) and not isinstance(n.body[-1], ast.Break):
                 t, flip = n.test, False
                 while isinstance(t, ast.UnaryOp) and isinstance(t.op, ast.Not):
                     t, flip = t.operand, not flip
@@ -1012,13 +1089,19 @@ class Side:
                         t = cmps[0]  # `flag and <char guard>`: the flag is accounted for in the flags fingerprint
                 if t in vc:
                     continue  # part of a validation idiom, already accounted for
+                if isinstance(t, ast.Compare) and self.prefix_eq(t) is not None and not self.dead(t):
+                    # `prefix(2) == "ab"` is `peek(0) == "a" and peek(1) == "b"`; either branch order is the same test
+                    consumed.add(t)
+                    for g in self.prefix_eq(t):
+                        guards[g] += 1
+                    continue
                 if (isinstance(t, ast.Compare) and len(t.ops) == 1 and not self.dead(t)) or t in premerged:
                     g = premerged[t][0] if t in premerged else self.guard(t)
                     if t in premerged:
                         consumed.update(premerged.pop(t)[1])
                     if g[1] in NEG:
-                        a = sorted(x for s in n.body for x in self.effects(walk_stmt(s)) if not x.startswith("read:"))
-                        b = sorted(x for s in orelse for x in self.effects(walk_stmt(s)) if not x.startswith("read:"))
+                        a = sorted(x for s in n.body for x in self.effects(walk_stmt(s)) + self.settings(walk_stmt(s)) if not x.startswith("read:"))
+                        b = sorted(x for s in orelse for x in self.effects(walk_stmt(s)) + self.settings(walk_stmt(s)) if not x.startswith("read:"))
                         neg = (g[1] in ("notin", "!=")) != flip
                         if neg:
                             a, b = b, a
@@ -1034,6 +1117,10 @@ class Side:
                 guards[g] += 1
         for n in nodes:
             if isinstance(n, ast.Compare) and len(n.ops) == 1 and n not in consumed and not self.dead(n):
+                if isinstance(n.ops[0], ast.Eq) and self.prefix_eq(n) is not None:
+                    for g in self.prefix_eq(n):
+                        guards[g] += 1
+                    continue
                 g = self.guard(n)
                 # `not <compare>` flips
                 p = parent(n)
@@ -1047,7 +1134,9 @@ class Side:
         eff = self.effects(nodes)
         do = Counter(x for x in eff if x.startswith("do:"))
         for x in set(x for x in eff if x.startswith("read:")):
-            do[x] = 1
+            mt = re.fullmatch(r"read:prefix\((\d+)\)", x)
+            for y in ([f"read:peek({i})" for i in range(int(mt.group(1)))] if mt else [x]):  # a fixed-length slice reads those offsets
+                do[y] = 1
         emit = Counter(x for x in eff if x.startswith("emit:"))
         for n in nodes:
             if isinstance(n, ast.Return):
@@ -1167,6 +1256,45 @@ def _blocks(node):
                 yield h.body
 
 
+_RESULT = "__result__"
+
+
+def _tail_returns(stmts: list, target) -> list:
+    """the helper body with every `return v` turned into `<result> = v` - possible when each return is in tail position
+    (`if c: ...; return` followed by more code becomes if/else); raises NotConst otherwise"""
+
+    def has_return(nodes) -> bool:
+        return any(isinstance(r, ast.Return) for n in nodes for r in ast.walk(n))
+
+    def emit(v):
+        if target is None:
+            return [ast.Expr(value=v)] if v is not None and not isinstance(v, (ast.Constant, ast.Name)) else []
+        return [ast.Assign(targets=[ast.Name(id=_RESULT, ctx=ast.Store())], value=v if v is not None else ast.Constant(value=None))]
+
+    out: list = []
+    for i, st in enumerate(stmts):
+        rest = stmts[i + 1 :]
+        if isinstance(st, ast.Return):
+            return out + emit(st.value)
+        if not has_return([st]):
+            out.append(st)
+            continue
+        if not isinstance(st, ast.If):
+            raise NotConst("return inside a loop/with/try")
+        body_ret, else_ret = has_return(st.body), has_return(st.orelse)
+        ends = lambda b: bool(b) and isinstance(b[-1], (ast.Return, ast.Raise))
+        if body_ret and ends(st.body) and not (else_ret and not ends(st.orelse) and rest):
+            new = ast.If(test=st.test, body=_tail_returns(st.body, target) or [ast.Pass()], orelse=_tail_returns(list(st.orelse) + (rest if not ends(st.orelse) else []), target))
+            return out + [new]
+        if else_ret and ends(st.orelse) and not body_ret:
+            new = ast.If(test=st.test, body=_tail_returns(list(st.body) + rest, target) or [ast.Pass()], orelse=_tail_returns(st.orelse, target))
+            return out + [new]
+        raise NotConst("return not in tail position")
+    if target is not None:
+        out += emit(None)
+    return out
+
+
 def _inline_call(st, fi: FunctionInfo, recv: str | None, counter: list, stack: tuple):
     """statements replacing ``st`` when it is `helper(...)` / `x = helper(...)` on an unpaired module helper that
     returns only as its last statement; None when the statement is not of that shape"""
@@ -1191,10 +1319,14 @@ def _inline_call(st, fi: FunctionInfo, recv: str | None, counter: list, stack: t
     body = list(hn.body)
     if body and isinstance(body[0], ast.Expr) and isinstance(body[0].value, ast.Constant) and isinstance(body[0].value.value, str):
         body = body[1:]
-    rets = [r for b in body for r in ast.walk(b) if isinstance(r, ast.Return)]
     nested = [d for b in body for d in ast.walk(b) if isinstance(d, (ast.FunctionDef, ast.AsyncFunctionDef, ast.Lambda, ast.ClassDef))]
-    if nested or len(rets) > 1 or (rets and rets[0] is not body[-1]):
+    if nested:
         return None
+    try:
+        body = _tail_returns(body, target)
+    except NotConst:
+        return None
+    rets = []
     counter[0] += 1
     tag = f"__h{counter[0]}_"
     a = hn.args
@@ -1223,18 +1355,12 @@ def _inline_call(st, fi: FunctionInfo, recv: str | None, counter: list, stack: t
             for nm in _assigned(n) if isinstance(n, ast.stmt) else ():
                 if nm not in mapping:
                     mapping[nm] = tag + nm
+    mapping.pop(_RESULT, None)
+    if target is not None:
+        mapping[_RESULT] = target
     out = pre
     for b in body:
-        b = _Rename(mapping).visit(b)
-        if isinstance(b, ast.Return):
-            if target is not None:
-                out.append(ast.Assign(targets=[ast.Name(id=target, ctx=ast.Store())], value=b.value if b.value is not None else ast.Constant(value=None)))
-            elif b.value is not None:
-                out.append(ast.Expr(value=b.value))
-        else:
-            out.append(b)
-    if target is not None and not rets:
-        out.append(ast.Assign(targets=[ast.Name(id=target, ctx=ast.Store())], value=ast.Constant(value=None)))
+        out.append(_Rename(mapping).visit(b))
     for s_ in out:
         for n in ast.walk(s_):
             if hasattr(n, "lineno") or isinstance(n, (ast.stmt, ast.expr)):
@@ -1254,6 +1380,10 @@ def _branch_ifexp(st):
         new = both(lambda v: ast.Expr(value=ast.Call(func=call.func, args=[v], keywords=[])))
     elif isinstance(st, ast.Assign) and isinstance(st.value, ast.IfExp):
         ie = st.value
+        new = both(lambda v: ast.Assign(targets=st.targets, value=v))
+    elif isinstance(st, ast.Assign) and len(st.targets) == 1 and isinstance(st.targets[0], ast.Name) and isinstance(st.value, ast.Compare) and len(st.value.ops) == 1:
+        # `flag = <comparison>` is `if <comparison>: flag = True else: flag = False`
+        ie = ast.IfExp(test=st.value, body=ast.Constant(value=True), orelse=ast.Constant(value=False))
         new = both(lambda v: ast.Assign(targets=st.targets, value=v))
     else:
         return None
@@ -1280,6 +1410,32 @@ def prepared(fi: FunctionInfo, inline: bool) -> FunctionInfo:
             i = 0
             while i < len(blk):
                 st = blk[i]
+                nxt = blk[i + 1] if i + 1 < len(blk) else None
+                if (
+                    isinstance(st, ast.Assign) and len(st.targets) == 1 and isinstance(st.targets[0], ast.Name) and isinstance(st.value, ast.IfExp)
+                    and isinstance(nxt, ast.Expr) and isinstance(nxt.value, ast.Call) and len(nxt.value.args) == 1 and not nxt.value.keywords
+                    and isinstance(nxt.value.args[0], ast.Name) and nxt.value.args[0].id == st.targets[0].id
+                    and sum(1 for x in ast.walk(node) if isinstance(x, ast.Name) and x.id == st.targets[0].id) == 2
+                ):
+                    # a single-use local holding the conditional argument: `w = a if c else b; f(w)` is `f(a if c else b)`
+                    nxt.value.args[0] = st.value
+                    del blk[i]
+                    changed = True
+                    continue
+                if (
+                    isinstance(st, ast.Assign) and len(st.targets) == 1 and isinstance(st.targets[0], ast.Name) and isinstance(nxt, ast.If)
+                    and isinstance(st.value, (ast.BoolOp, ast.Compare, ast.UnaryOp))
+                    and sum(1 for x in ast.walk(node) if isinstance(x, ast.Name) and x.id == st.targets[0].id) == 2
+                ):
+                    # a single-use local holding the condition: `c = a and b; if c:` is `if a and b:`
+                    t_, neg_ = nxt.test, False
+                    while isinstance(t_, ast.UnaryOp) and isinstance(t_.op, ast.Not):
+                        t_, neg_ = t_.operand, not neg_
+                    if isinstance(t_, ast.Name) and t_.id == st.targets[0].id:
+                        nxt.test = ast.UnaryOp(op=ast.Not(), operand=st.value) if neg_ else st.value
+                        del blk[i]
+                        changed = True
+                        continue
                 rep_ = _branch_ifexp(st)
                 if rep_ is None and inline:
                     r = _inline_call(st, fi, recv, counter, stack)
@@ -1314,12 +1470,12 @@ _REFILL = "yaml.reader.Reader refills its buffer lazily; StreamBuffer holds the 
 _SEP_SET = "".join(sorted("\0 \t\r\n\x85\u2028\u2029"))
 DEVIATIONS: dict[tuple[str, str], dict[str, dict]] = {
     ("_scan_plain_scalar", "guards"): {"opt": {("peek(0)", "in", "#"): (1, "second `#` test only records State.has_comments")}},
-    ("_scan_plain_scalar", "flags"): {"opt": {"flag:param": (1, "is_key: a `: ` inside a *value* does not end the scalar (values are never nested mappings)")}},
+    ("_scan_plain_scalar", "flags"): {"opt": {"flag:param": (2, "is_key: a `: ` inside a *value* does not end the scalar (values are never nested mappings); continuation indent is 0 for keys (column 0 by contract) and 1 for values")}},
     ("_scan_plain_spaces", "flags"): {"opt": {"flag:param": (1, "allow_newline: keys are single-line, as YAML's simple-key rule demands")}},
-    ("_scan_plain_spaces", "guards"): {"yaml": {("peek(3)", "in", _SEP_SET): (2, _DOCSEP), ("prefix(3)", "==", "'---'"): (2, _DOCSEP), ("prefix(3)", "==", "'...'"): (2, _DOCSEP)}},
-    ("_scan_plain_spaces", "effects"): {"yaml": {"read:peek(3)": (1, _DOCSEP), "read:prefix(3)": (1, _DOCSEP)}},
-    ("_scan_flow_scalar_breaks", "guards"): {"yaml": {("peek(3)", "in", _SEP_SET): (1, _DOCSEP), ("prefix(3)", "==", "'---'"): (1, _DOCSEP), ("prefix(3)", "==", "'...'"): (1, _DOCSEP)}},
-    ("_scan_flow_scalar_breaks", "effects"): {"yaml": {"read:peek(3)": (1, _DOCSEP), "read:prefix(3)": (1, _DOCSEP)}},
+    ("_scan_plain_spaces", "guards"): {"yaml": {("peek(3)", "in", _SEP_SET): (2, _DOCSEP), **{(f"peek({i})", "in", c): (2, _DOCSEP) for i in range(3) for c in "-."}}},
+    ("_scan_plain_spaces", "effects"): {"yaml": {f"read:peek({i})": (1, _DOCSEP) for i in (1, 2, 3)}},
+    ("_scan_flow_scalar_breaks", "guards"): {"yaml": {("peek(3)", "in", _SEP_SET): (1, _DOCSEP), **{(f"peek({i})", "in", c): (1, _DOCSEP) for i in range(3) for c in "-."}}},
+    ("_scan_flow_scalar_breaks", "effects"): {"yaml": {f"read:peek({i})": (1, _DOCSEP) for i in (1, 2, 3)}},
     ("_scan_flow_scalar_non_spaces", "guards"): {"opt": {("v", ">", "1114111"): (1, "range check before chr(): an out-of-range \\U escape is a TokenizeError (PyYAML lets chr() raise)")}},
     ("StreamBuffer.forward", "guards"): {"yaml": {("v", ">=", "v"): (1, _REFILL)}},
     ("StreamBuffer.forward", "emits"): {"yaml": {"store:.charindex+=1": (1, "Reader keeps a second absolute index; StreamBuffer's pointer is absolute already")}},
@@ -1409,6 +1565,16 @@ def _site_of(fi: FunctionInfo, entry) -> str:
 
 # ---------------------------------------------------------------------------
 # E9 character facts over parsers/options.py (guard refinement, advance summaries, counters)
+
+
+def _offarg(call: ast.Call):
+    """the offset/length argument of stream.peek/prefix/forward, positional or by keyword (None: defaulted)"""
+    if call.args:
+        return call.args[0]
+    for k in call.keywords:
+        if k.arg in ("index", "length"):
+            return k.value
+    return None
 
 
 def _header(st) -> list:
@@ -1626,14 +1792,14 @@ class E9:
     def peek_target(self, e, fi, at):
         """(offset key, names in the offset, defining statement | None) when ``e`` denotes the character at an offset"""
         if isinstance(e, ast.Call) and self.classify(e, fi)[0] == "peek":
-            a = e.args[0] if e.args else None
+            a = _offarg(e)
             return (self.offkey(a), _names(a), None)
         if isinstance(e, ast.Name) and isinstance(at, ast.AST):
             ds = self.reaching(fi, e.id, at)
             if len(ds) == 1 and isinstance(ds[0], ast.Assign) and len(ds[0].targets) == 1 and isinstance(ds[0].targets[0], ast.Name):
                 v = ds[0].value
                 if isinstance(v, ast.Call) and self.classify(v, fi)[0] == "peek":
-                    a = v.args[0] if v.args else None
+                    a = _offarg(v)
                     return (self.offkey(a), _names(a), ds[0])
         return None
 
@@ -1665,12 +1831,12 @@ class E9:
             return []
         positive = isinstance(op, (ast.Eq, ast.In)) == pol
         if isinstance(left, ast.Call) and self.classify(left, fi)[0] == "prefix":
-            if positive and isinstance(op, (ast.Eq, ast.NotEq)) and left.args and isinstance(left.args[0], ast.Constant):
+            if positive and isinstance(op, (ast.Eq, ast.NotEq)) and isinstance(_offarg(left), ast.Constant):
                 try:
                     v = self.m.eval_const(right)
                 except Unsupported:
                     return []
-                if isinstance(v, str) and len(v) == left.args[0].value:
+                if isinstance(v, str) and len(v) == _offarg(left).value:
                     return [(str(i), CS(ch), frozenset(), origin) for i, ch in enumerate(v)]
             return []
         tgt = self.peek_target(left, fi, origin)
@@ -1794,6 +1960,9 @@ class E9:
     def value_min(self, v) -> int | None:
         if isinstance(v, ast.Constant) and isinstance(v.value, int) and not isinstance(v.value, bool):
             return v.value
+        if isinstance(v, ast.IfExp):
+            a, b = self.value_min(v.body), self.value_min(v.orelse)
+            return None if a is None or b is None else min(a, b)
         if isinstance(v, ast.Subscript) and isinstance(v.value, ast.Name) and v.value.id in self.m.const_nodes:
             try:
                 tab = self.m.const(v.value.id)
@@ -1841,6 +2010,25 @@ class E9:
                         return True
         return False
 
+    def offset_positive(self, a, fi, st) -> bool:
+        """forward(a) moves by at least one character (a conditional expression is a branch: every arm must)"""
+        if a is None:
+            return True
+        if isinstance(a, ast.Constant):
+            return isinstance(a.value, int) and not isinstance(a.value, bool) and a.value >= 1
+        if isinstance(a, ast.Name):
+            return self.positive_at(fi, a.id, st)
+        if isinstance(a, ast.IfExp):
+            return self.offset_positive(a.body, fi, st) and self.offset_positive(a.orelse, fi, st)
+        return False
+
+    @staticmethod
+    def offset_arms(a, conds=()) -> list:
+        """[(arm expression, [(test, polarity)...])] of a (nested) conditional-expression offset"""
+        if isinstance(a, ast.IfExp):
+            return E9.offset_arms(a.body, conds + ((a.test, True),)) + E9.offset_arms(a.orelse, conds + ((a.test, False),))
+        return [(a, list(conds))]
+
     def def_adv(self, fi) -> set:
         """CFG nodes (statements, branch edges) that strictly advance the cursor whenever they are passed"""
         key = ("adv", fi.fq)
@@ -1855,8 +2043,8 @@ class E9:
             for call in self.uncond_calls(st):
                 k, t = self.classify(call, fi)
                 if k == "forward":
-                    a = call.args[0] if call.args else None
-                    if a is None or (isinstance(a, ast.Constant) and isinstance(a.value, int) and a.value >= 1) or (isinstance(a, ast.Name) and self.positive_at(fi, a.id, st)):
+                    a = _offarg(call)
+                    if self.offset_positive(a, fi, st):
                         out.add(st)
                 elif k == "func":
                     if self.must_advance(t):
@@ -2025,8 +2213,8 @@ class E9:
 
     def prefix_len_name(self, e, fi, at):
         """(N, origin statement | None) when ``e`` denotes stream.prefix(N), N a name (directly or through a local)"""
-        if isinstance(e, ast.Call) and self.classify(e, fi)[0] == "prefix" and len(e.args) == 1 and isinstance(e.args[0], ast.Name):
-            return e.args[0].id, None
+        if isinstance(e, ast.Call) and self.classify(e, fi)[0] == "prefix" and isinstance(_offarg(e), ast.Name):
+            return _offarg(e).id, None
         if isinstance(e, ast.Name) and isinstance(at, ast.AST):
             ds = self.reaching(fi, e.id, at)
             if len(ds) == 1 and isinstance(ds[0], ast.Assign) and len(ds[0].targets) == 1 and isinstance(ds[0].targets[0], ast.Name):
@@ -2130,8 +2318,8 @@ def loop_verdict(e9: E9, fi: FunctionInfo, w: ast.While):
     peeked = set()
     for h in head_exprs:
         for c in [h] + list(walk_local(h)):
-            if isinstance(c, ast.Call) and e9.classify(c, fi)[0] == "peek" and c.args:
-                peeked |= _names(c.args[0])
+            if isinstance(c, ast.Call) and e9.classify(c, fi)[0] == "peek" and _offarg(c) is not None:
+                peeked |= _names(_offarg(c))
     for s in inside:
         if isinstance(s, ast.AugAssign) and isinstance(s.target, ast.Name) and isinstance(s.value, ast.Constant) and isinstance(s.value.value, int) and s.value.value >= 1:
             k = s.target.id
@@ -2238,7 +2426,7 @@ def r3_in_bounds(corpus: Corpus, rep: Report, tier: str):
             kind, _ = e9.classify(call, fi)
             if kind not in ("forward", "peek"):
                 continue
-            a = call.args[0] if call.args else None
+            a = _offarg(call)
             if kind == "peek" and (a is None or (isinstance(a, ast.Constant) and a.value == 0)):
                 continue
             cfg = get_cfg(fi)
@@ -2249,6 +2437,28 @@ def r3_in_bounds(corpus: Corpus, rep: Report, tier: str):
             k = text + (f" #{seen[text]}" if seen[text] > 1 else "")
             site = m.site(call)
             what = "forward" if kind == "forward" else "look-ahead"
+            if isinstance(a, ast.Name):
+                # a local that just holds a constant / conditional offset computed at the same cursor position
+                ds = e9.reaching(fi, a.id, st)
+                if len(ds) == 1 and isinstance(ds[0], ast.Assign) and len(ds[0].targets) == 1 and isinstance(ds[0].value, (ast.IfExp, ast.Constant)) and e9.value_min(ds[0].value) is not None:
+                    if not e9.intervening(cfg, ds[0], st, e9.killers(fi)):
+                        a = ds[0].value
+            if isinstance(a, ast.IfExp) and all(isinstance(x, ast.Constant) and isinstance(x.value, int) and not isinstance(x.value, bool) for x, _ in e9.offset_arms(a)):
+                # a conditional-expression offset is a branch: judge every arm under its condition
+                problems = []
+                for arm, conds in e9.offset_arms(a):
+                    af = dict(facts)
+                    for t, pol in conds:
+                        for off, cs, names, o in e9.test_facts(t, pol, fi, st):
+                            af[off] = af.get(off, TOP).meet(cs)
+                    bad = [j for j in range(arm.value) if af.get(str(j), TOP).has(END)]
+                    if arm.value < 0 or bad:
+                        problems.append(f"arm {arm.value} (when {' and '.join(('' if p else 'not ') + unparse(t) for t, p in conds)}): END not excluded at offset {bad[0] if bad else 0} ({_fact_text(af)})")
+                if problems:
+                    rep.violation("C07.R3", k, site, f"{unparse(call)} may step over the end-of-buffer sentinel: " + "; ".join(problems) + "; the next peek() then raises IndexError out of options_to_items")
+                else:
+                    rep.ok("C07.R3", k, site, "J1/J4 per arm of the conditional offset")
+                continue
             if a is None or (isinstance(a, ast.Constant) and isinstance(a.value, int)):
                 n = 1 if a is None else a.value
                 bad = [j for j in range(n) if facts.get(str(j), TOP).has(END)]
@@ -2652,4 +2862,36 @@ def mutants(corpus: Corpus):
     add("c07-key-not-cleared-after-value", "C07.R6", "_to_tokens", lambda n: isinstance(n, ast.Assign) and unparse(n) == "key_token = None" and any(isinstance(a, ast.For) for a in _ancestors_until(n)), "pass", "re-assignment before the next yield")
     add("c07-missing-value-is-none", "C07.R6", "options_to_items", lambda n: isinstance(n, ast.IfExp), lambda n: ast.get_source_segment(m.src, n.body) + " if " + ast.get_source_segment(m.src, n.test) + " else None", "pair =")
     add("c07-value-test-inverted", "C07.R6", "options_to_items", lambda n: isinstance(n, ast.Compare) and unparse(n) == "value_token is not None", "value_token is None", "pair =")
+    # --- round 3: defects written in the refactored spellings the normal form understands ---
+    add("c07-crlf-conditional-offset-swapped", "C07.R3", "_scan_line_break", lambda n: isinstance(n, ast.If) and unparse(n.test) == "stream.prefix(2) == '\\r\\n'", 'stream.forward(1 if stream.prefix(2) == "\\r\\n" else 2)', "stream.forward(1 if")
+    add("c07-chomping-conditional-inverted", "C07.R4", "_scan_block_scalar_indicators", lambda n: isinstance(n, ast.Assign) and unparse(n) == "chomping = ch == '+'", 'chomping = False if ch == "+" else True', "_scan_block_scalar_indicators|guards")
+    # the digit block moved into a helper, and one call site's guard widened: int() fails inside the helper
+    f_ = m.func("_scan_block_scalar_indicators")
+    blocks = []
+    for blk in _blocks(f_.node):
+        for i, st in enumerate(blk):
+            if isinstance(st, ast.Assign) and unparse(st) == "increment = int(ch)" and i + 2 < len(blk) and isinstance(blk[i + 1], ast.If) and unparse(blk[i + 2]) == "stream.forward()":
+                blocks.append((st, blk[i + 2]))
+    guard = find_node(f_, lambda n: isinstance(n, ast.If) and unparse(n.test) == "ch in '0123456789'" and any(isinstance(x, ast.Assign) and unparse(x) == "increment = int(ch)" for x in n.body) and isinstance(parent(n), ast.If) and n in parent(n).orelse)
+    nxt_ = m.functions.get("_scan_block_scalar_ignored_line")
+    if len(blocks) == 2 and guard is not None and nxt_ is not None:
+        lines = m.src.splitlines(keepends=True)
+        helper = (
+            "def _read_increment(stream: StreamBuffer, digit: str, start_mark: Position) -> int:\n"
+            "    increment = int(digit)\n"
+            "    if increment == 0:\n"
+            "        raise TokenizeError('expected indentation indicator in the range 1-9, but found 0', stream.get_position(), 'while scanning a block scalar', start_mark)\n"
+            "    stream.forward()\n"
+            "    return increment\n\n\n"
+        )
+        edits = [(nxt_.node.lineno, nxt_.node.lineno - 1, helper)]  # insert before the next function
+        for first, last in blocks:
+            ind = " " * first.col_offset
+            edits.append((first.lineno, last.end_lineno, f"{ind}increment = _read_increment(stream, ch, start_mark)\n"))
+        edits.append((guard.test.lineno, guard.test.lineno, lines[guard.test.lineno - 1].replace('"0123456789"', '"0123456789abcdef"')))
+        for a_, b_, text in sorted(edits, key=lambda e: -e[0]):
+            lines[a_ - 1 : b_] = [text]
+        out.append(Mutant("c07-digit-helper-guard-widened", "C07.R1", m.rel, "".join(lines), expect="int(digit)"))
+    else:
+        out.append(("c07-digit-helper-guard-widened", "digit blocks not found"))
     return out
